@@ -45,6 +45,9 @@ def programs_c04(tier):
     out = []
     n = 5
     fails = [["task", 0], ["task", 2], ["task", n - 1], ["iter", 0], ["iter", 3], ["base", 1]]
+    # (a task raising StopIteration is not in the alphabet: PEP 479 turns a StopIteration that crosses a generator frame
+    #  into RuntimeError - in joblib's output generators as in `list(f(x) for x in xs)` - so there is no exception type
+    #  a generator-returning call could faithfully surface)
     njs = (2, 3) if tier == "quick" else (2, 3, 4)
     for nj, bs, pre, ra, fail in itertools.product(
             njs, (1, 2, "auto"), ("all", "2*n_jobs", 1), ("list", "generator", "generator_unordered"), fails):
@@ -78,8 +81,8 @@ def _run_program(backend, cfg, d, run_id, rec_sink):
                 raise IterBoom(i)
             consumed.append(i)
             sleep = (n - i) * 4 if dur == "dec" else 0
-            failing = bool(fail and fail[0] in ("task", "base") and fail[1] == i)
-            yield joblib.delayed(work)(d, run, i, sleep, ("base" if fail[0] == "base" else True) if failing else False,
+            failing = bool(fail and fail[0] in ("task", "base", "stopiter") and fail[1] == i)
+            yield joblib.delayed(work)(d, run, i, sleep, (fail[0] if fail[0] in ("base", "stopiter") else True) if failing else False,
                                        gate if dur == "block" and not failing else None, GATE_WAIT[backend])
 
     p = joblib.Parallel(n_jobs=cfg["n_jobs"], backend=backend, batch_size=cfg["batch_size"],
@@ -102,7 +105,7 @@ def _run_program(backend, cfg, d, run_id, rec_sink):
                 for x in out:
                     rec["got"].append(list(x))
         except BaseException as e:  # noqa
-            rec["exc"] = [type(e).__name__, getattr(e, "index", None) if not isinstance(e, IterBoom) else e.args[0]]
+            rec["exc"] = [type(e).__name__, e.args[0] if isinstance(e, (IterBoom, StopIteration)) and e.args else getattr(e, "index", None)]
         rec["consumed"] = list(consumed)
         rec["wall"] = round(time.time() - t_call, 3)
         del consumed[:]
@@ -201,7 +204,7 @@ def judge(obs, backend):
             if rec["consumed"] != list(range(n)):
                 bad.append(("real|input-consumption|%s" % where, "%s consumed inputs %r instead of 0..%d in order" % (tag, rec["consumed"], n - 1)))
         else:
-            exp = ["Boom", fail[1]] if fail[0] == "task" else ["FatalBoom", fail[1]] if fail[0] == "base" else ["IterBoom", fail[1]]
+            exp = ["Boom", fail[1]] if fail[0] == "task" else ["FatalBoom", fail[1]] if fail[0] == "base" else ["StopIteration", fail[1]] if fail[0] == "stopiter" else ["IterBoom", fail[1]]
             if "exc" not in rec:
                 bad.append(("real|failure-swallowed|%s|%s" % (where, fail[0]),
                             "%r: the failure %r did not surface, the call returned %r" % (cfg, fail, got)))
